@@ -88,6 +88,10 @@ class Run:
             is_lemma = fname.startswith("<lemma>") or (em is not None and not any(fname == x[0] for x in em.fn_lines))
             if not is_lemma and not self.relevant(unit, fname):
                 continue
+            # hand-written executable functions of the prelude (rangeint model, opaque views) are not
+            # obligations about /repo: only extracted functions and proof lemmas are counted
+            if is_lemma and fr.ok and fr.mode not in ("proof",):
+                continue
             o = Obl("%s/%s" % (name, fname), "verus/z3", fr.ok)
             o.time_s = fr.time_ms / 1000.0
             if fr.src:
